@@ -23,6 +23,7 @@ type GenOpts struct {
 	SkWeights  []int // when set, the skeleton kind is sampled from this list
 	Suppress   bool  // combinator.SuppressError wrappers
 	MemoLeaves bool  // Memoize wrappers also around terminals and references ("any sub-parser")
+	Single     bool  // combinator.Single wrappers (C07 only: it changes tree shapes)
 	NearMiss   bool  // prefer sentences of the grammar with one byte changed / inserted / deleted / appended
 }
 
@@ -91,7 +92,7 @@ func fixLeftRecursion(g *Grammar, t *rapid.T, alphabet string) {
 					ch := alphabet[rapid.IntRange(0, len(alphabet)-1).Draw(t, "lrfix")]
 					return &Expr{K: KSeqOf, Kids: []*Expr{tm(ch), e}}
 				}
-			case KAny, KChoice, KOpt, KMany, KMany1, KLTrim, KRTrim, KSuppress:
+			case KAny, KChoice, KOpt, KMany, KMany1, KLTrim, KRTrim, KSuppress, KSingle:
 				for i, k := range e.Kids {
 					e.Kids[i] = walk(k, true)
 				}
@@ -175,6 +176,9 @@ func GenGrammar(t *rapid.T, o GenOpts) *Grammar {
 			if o.Suppress {
 				kinds = append(kinds, KSuppress)
 			}
+			if o.Single {
+				kinds = append(kinds, KSingle, KSingle)
+			}
 		}
 		k := kinds[rapid.IntRange(0, len(kinds)-1).Draw(t, "kind")]
 		e := &Expr{K: k}
@@ -215,7 +219,7 @@ func GenGrammar(t *rapid.T, o GenOpts) *Grammar {
 			for i := 0; i < m; i++ {
 				e.Kids = append(e.Kids, gen(nt, depth+1, neg || i < m-1))
 			}
-		case KOpt, KSuppress:
+		case KOpt, KSuppress, KSingle:
 			e.Kids = []*Expr{gen(nt, depth+1, neg)}
 		case KLTrim, KRTrim:
 			e.Mode = rapid.IntRange(0, 3).Draw(t, "wsmode")
@@ -378,7 +382,7 @@ func GenInput(t *rapid.T, g *Grammar, o GenOpts) string {
 				}
 				derive(e.Kids[0])
 			}
-		case KSuppress:
+		case KSuppress, KSingle:
 			derive(e.Kids[0])
 		case KLTrim:
 			b = append(b, wsSample(t)...)
@@ -600,4 +604,76 @@ func genTower(t *rapid.T, o GenOpts) *Grammar {
 	g.Rules[n-1] = &Expr{K: KAny, Kids: last}
 	g.number()
 	return g
+}
+
+// trimSkeleton: a memoized multi-result rule S (with an empty alternative) reached at one position
+// both through trimming wrappers (LeftTrim, RightTrim, Trim, Single around a right-trimmed
+// one-child sequence) and directly, with whitespace around it: the shapes in which a wrapper that
+// adjusts positions in place reaches a node somebody else holds.
+func trimSkeleton(t *rapid.T, g *Grammar, o GenOpts) {
+	term := func() *Expr {
+		return tm("ab"[rapid.IntRange(0, 1).Draw(t, "tch")])
+	}
+	var body *Expr
+	switch rapid.IntRange(0, 3).Draw(t, "tsbody") {
+	case 0:
+		body = ex(KAny, ex(KOpt, term()), term())
+	case 1:
+		body = ex(KOpt, ex(KAny, term(), ex(KSeqOf, term(), term())))
+	case 2:
+		body = ex(KAny, term(), &Expr{K: KEmpty}, ex(KSeqOf, term(), term()))
+	default:
+		body = ex(KAny, term(), ex(KSeqOf, term(), term()), term())
+	}
+	for i := range g.Layer {
+		g.Layer[i]++
+	}
+	g.Rules = append(g.Rules, body)
+	g.Layer = append(g.Layer, 0)
+	s := len(g.Rules) - 1
+	mode := func() int { return rapid.SampledFrom([]int{2, 2, 2, 1, 0, 3}).Draw(t, "tmode") }
+	wrap := func() *Expr {
+		switch rapid.IntRange(0, 7).Draw(t, "twrap") {
+		case 0:
+			return &Expr{K: KLTrim, Mode: mode(), Kids: []*Expr{rf(s)}}
+		case 1:
+			return &Expr{K: KRTrim, Mode: mode(), Kids: []*Expr{rf(s)}}
+		case 2:
+			return &Expr{K: KSingle, Kids: []*Expr{{K: KRTrim, Mode: mode(), Kids: []*Expr{ex(KSeqOf, rf(s))}}}}
+		case 3:
+			return &Expr{K: KRTrim, Mode: mode(), Kids: []*Expr{ex(KSeqOf, rf(s))}}
+		case 4:
+			return &Expr{K: KRTrim, Mode: 2, Kids: []*Expr{{K: KLTrim, Mode: 2, Kids: []*Expr{rf(s)}}}}
+		case 5:
+			return ex(KOpt, rf(s))
+		case 6:
+			return &Expr{K: KLTrim, Mode: mode(), Kids: []*Expr{ex(KAny, rf(s), term())}}
+		default:
+			return rf(s)
+		}
+	}
+	alt := func() *Expr {
+		switch rapid.IntRange(0, 4).Draw(t, "talt") {
+		case 0:
+			return ex(KSeqOf, wrap(), term())
+		case 1:
+			return ex(KSeqOf, tm(' '), wrap()) // S right after an explicitly matched blank
+		case 2:
+			return ex(KSeqOf, wrap(), wrap())
+		case 3:
+			return ex(KSeqOf, term(), wrap(), term())
+		default:
+			return wrap()
+		}
+	}
+	host := rapid.IntRange(0, s-1).Draw(t, "thost")
+	e := &Expr{K: KAny}
+	for i := rapid.IntRange(2, 4).Draw(t, "talts"); i > 0; i-- {
+		e.Kids = append(e.Kids, alt())
+	}
+	if rapid.Bool().Draw(t, "tkeep") {
+		e.Kids = append(e.Kids, g.Rules[host])
+	}
+	g.Rules[host] = e
+	g.number()
 }
